@@ -5,7 +5,7 @@ from lib.checkdef import default_replay_cmd, run_property
 def run(tier, seed):
     return run_property(
         "C03", tier, seed, level="other",
-        deductive=[("c03_wrap", None), ("c03_wrappers", None)],
+        deductive=[("c03_wrap", None), ("c03_wrappers", None), ("c_op", r"^C03\.")],
         bounded=[("api_bounded.py", ["--check", "C03"])],
         trusted=["NumPy itself is the oracle of the bounded part", "pyvc executor's model of keyword passing (**kwargs dicts, defaults)"],
         assumptions=[
